@@ -35,6 +35,8 @@ EXPLANATION = (
 TECHNIQUE += '; symbolic index-map evaluation of reshaping expressions against the format layouts; taint rule for narrow counter fields'
 EXPLANATION += ' Added: (R7) the extended-XYZ Lattice, the WFX primitive-coefficient block, the Molden orbital columns and the VASP direct-coordinate product, evaluated on symbolic arrays, land on the elements the layout prescribes; (R8) no array index or loop bound in a loader derives from an integer cut from a field of three or fewer characters (such counters wrap in real files).'
 TRUSTED = ["CPython ast parser", "frozen layout specifications in spec/layouts.json (wwPDB 3.3, GROMACS manual, CTfile V2000)", "np.tril_indices enumerates the lower triangle in row-major order"]
+EXPLANATION += " Added: (R9) the VASP coordinate-mode switch, evaluated on every first character, selects Cartesian exactly for c/C/k/K; (R10) Molden pure/Cartesian tags collected while scanning sections in any order are applied only after the section loop; (R11) the Molden reader's tag branch, evaluated on [5D], [5D7F], [5D10F], [7F], [9G] in several spellings, marks exactly the angular momenta the format assigns to each tag."
+TECHNIQUE += '; finite-domain evaluation of the VASP switch and the Molden tag branch; placement rule for deferred application'
 
 
 def _load_spec():
